@@ -52,6 +52,12 @@ def shards(tier):
                 out.append(dict(dev=dev, op="transfer", sgeo=sg, dgeo=sg, same=True, k=2, steps=2, partition_by="auto", ncand=2))
         if tier == "thorough":
             out.append(dict(dev=dev, op="transfer", sgeo="p3x2", dgeo="p3x2", same=True, k=2, steps=1, partition_by="auto", washes=[1], cands=[[0, 1], [1, 2]], comp=True, wl_max=common.BIG * 2))
+        # two operations in sequence on one worklist (the inductive argument is not the only support of the claim)
+        T = dict(op="transfer", k=1, washes=[1], partition_by="auto")
+        seqs = [[T, T], [dict(op="dispense", k=1, volshapes=["list"]), T], [T, dict(op="aspirate", k=1, volshapes=["list"])]]
+        for sg, dg in ([("p2x2", "t3x2"), ("t3x2", "p2x2")] if tier == "quick" else base):
+            for ops in (seqs[:1] if tier == "quick" else seqs):
+                out.append(dict(dev=dev, op="seq", ops=ops, sgeo=sg, dgeo=dg, k=1, steps=2, ncand=2, comp=(tier == "thorough")))
     return out
 
 
@@ -64,13 +70,16 @@ def engine_opts(p, tier):
 
 
 def witnesses(tier):
-    return {"ok:aspirate", "ok:dispense", "ok:transfer", "ok:distribute", "split", "zero-skipped", "records>0"}
+    return {"ok:aspirate", "ok:dispense", "ok:transfer", "ok:distribute", "ok:seq", "split", "zero-skipped", "records>0"}
 
 
 def scenario(ctx, p):
     W = wlops.build(ctx, p)
     ctx.ctx["W"] = W
-    wlops.run(ctx, W)
+    if p["op"] == "seq":
+        wlops.run_seq(ctx, W, p["ops"])
+    else:
+        wlops.run(ctx, W)
     return W
 
 
@@ -84,7 +93,7 @@ def judge(ctx, p, outcome):
     if recs:
         ctx.reach("records>0")
     nA = sum(1 for r in recs if r.startswith("A;"))
-    if p["op"] == "transfer" and nA > p["k"]:
+    if p["op"] in ("transfer", "seq") and nA > len(W.pairs):
         ctx.reach("split")
     if p["op"] in ("aspirate", "dispense") and nA + sum(1 for r in recs if r.startswith("D;")) < p["k"]:
         ctx.reach("zero-skipped")
